@@ -79,9 +79,19 @@ NUMERIC = {"y", "x", "z", "w", "my col", "kk", "s", "n", "u1", "k"}
 NULLABLE = {"kk": "Int64", "s": "Int64", "n": "Int64", "x": "Float64", "z": "Float64"}
 
 
+NULLABLE_INT = {"kk": "Int64", "s": "Int64", "n": "Int64", "x": "Int64", "z": "Int32", "w": "UInt8", "my col": "Int16", "k": "Int64"}
+
+
 def with_missing(cells, marker="none"):
     df = clean()
-    if marker == "nullable":  # pandas' nullable extension dtypes hold pd.NA
+    if marker in ("intvals", "nullable-int"):  # whole numbers, so that integer extension dtypes can hold them
+        df["x"] = [1.0, 2.0, 3.0, 4.0, 5.0, 7.0]
+        df["w"] = [1.0, 2.0, 3.0, 4.0, 5.0, 9.0]
+        df["k"] = [7.0, 8.0, 9.0, 17.0, 18.0, 19.0]
+        if marker == "intvals":
+            return df
+    if marker in ("nullable", "nullable-int"):  # pandas' nullable extension dtypes hold pd.NA
+        NULLABLE = globals()["NULLABLE"] if marker == "nullable" else NULLABLE_INT
         for c, dt in NULLABLE.items():
             df[c] = df[c].astype(dt)
         for r, c in cells:
@@ -173,6 +183,8 @@ def units(tier, seed):
         u.append([{"kind": "patterns", "i": i, "tier": "single", "marker": "dupindex"}])
     for i in (0, 1, 2, 15, 24, 25):
         u.append([{"kind": "patterns", "i": i, "tier": "single", "marker": "nullable"}])
+    for i in (0, 1, 2, 15, 24, 25):
+        u.append([{"kind": "patterns", "i": i, "tier": "single", "marker": "nullable-int"}])
     for i in (10, 12, 13, 14, 17, 19, 20, 22, 23):
         u.append([{"kind": "patterns", "i": i, "tier": "single", "marker": "ordcat"}])
     for i in (0, 2, 10, 13, 17, 21, 24):
@@ -211,7 +223,7 @@ def check_patterns(case, acc):
         build(case["after"], clean())  # an earlier, unrelated design in the same process
     refcache = {}
     clean_df = clean()
-    ref_frame = with_missing([], "ordcat") if case["marker"] == "ordcat" else with_missing([], "big") if case["marker"] == "big" else clean_df
+    ref_frame = with_missing([], "ordcat") if case["marker"] == "ordcat" else with_missing([], "big") if case["marker"] == "big" else with_missing([], "intvals") if case["marker"] == "nullable-int" else clean_df
     nrows = len(ref_frame)
     off = 120 if case["marker"] == "big" else 0
     try:
